@@ -133,6 +133,12 @@ def handle : DrvHandler := fun op args =>
         let rs ← (← jStrList? (← jField? d "reasons")).mapM reasonOf?
         pure (Json.bool (sweepSpawns { Inst.fresh 0 with reasons := rs })))
       some (ok (.arr outs.toArray))
+  | "C09.due", [j] => do
+      let p ← jInt? (← jField? j "p")
+      let since ← jInt? (← jField? j "since")
+      let t ← jInt? (← jField? j "t")
+      some (ok (Json.mkObj [("round", .bool (isRound p t)), ("byDue", .bool (decide (t ≤ firstDue p since))),
+                            ("due", num (firstDue p since))]))
   | "C09.variant", [] => some (ok (Json.mkObj [("treeGuarded", .bool treeGuarded), ("treeYielding", .bool treeYielding)]))
   | _, _ => none
 
